@@ -430,6 +430,11 @@ fn low_level_config(rng: &mut ChaCha8Rng, key: &impl SigningKey, typ: SignatureT
             hashed.push(sp(SubpacketData::RegularExpression(b"<[^>]+[@.]example\\.org>$\0".to_vec().into()))?);
         }
         2 => {
+            // (designated revokers: a v4 fingerprint, and the fingerprint of a v6 key for a v6 signer)
+            hashed.push(sp(SubpacketData::RevocationKey(pgp::types::RevocationKey::new(pgp::types::RevocationKeyClass::Default, key.algorithm(), &[0x17; 20])))?);
+            if v6 {
+                hashed.push(sp(SubpacketData::RevocationKey(pgp::types::RevocationKey::new(pgp::types::RevocationKeyClass::Sensitive, key.algorithm(), &[0x26; 32])))?);
+            }
             hashed.push(sp(SubpacketData::RegularExpression(b"no terminator".to_vec().into()))?);
             hashed.push(sp(SubpacketData::ExportableCertification(false))?);
         }
